@@ -294,6 +294,14 @@ def rule_hex(facts, rep):
         if n.get("k") == "letexpr" and hir.is_call(hir.simp(n["init"]), "strip_prefix") and hir.is_local(hir.simp(n["init"])["args"][0], word):
             if hir.lit_val(hir.simp(n["init"])["args"][1]) == ord("#"):
                 hexvar = n["pat"]["pats"][0].get("name")
+        # `match word.strip_prefix('#') { Some(hex) => .., None => .. }`
+        if n.get("k") == "match" and n.get("src") not in ("TryDesugar", "ForLoopDesugar") and hir.is_call(hir.simp(n["scrut"]), "strip_prefix") \
+                and hir.is_local(hir.simp(n["scrut"])["args"][0], word) and hir.lit_val(hir.simp(n["scrut"])["args"][1]) == ord("#"):
+            for a in n["arms"]:
+                if hir.last_seg(hir.pat_path(a["pat"]) or "") == "Some" and "guard" not in a:
+                    subs = a["pat"].get("pats") or [f_["p"] for f_ in a["pat"].get("fields", [])]
+                    if len(subs) == 1 and subs[0].get("k") == "pbind":
+                        hexvar = subs[0].get("name")
     rep.check(hexvar is not None, "hex-guard", b["path"], "hex-branch", "word.strip_prefix('#')", loc(b))
     if hexvar is None:
         return
